@@ -62,8 +62,8 @@ def build():
                "binson_parser_get_double"):
         e1(fn, GETP)
     LKP = {"C01": "*", "C07": "*", "C09": "*", "C18": "*", "C08": "*"}
-    e1("binson_parser_field_with_length", LKP, replace=["_advance_parsing", "_cmp_name"], loop=True, timeout=1800, mem=12,
-       defs=["VC_H_MD=1"], name="E1/binson_parser_field_with_length/md=1",
+    e1("binson_parser_field_with_length", LKP, replace=["_advance_parsing", "_cmp_name"], loop=True, timeout=10800, mem=16,
+       defs=["VC_H_MD=1"], name="E1/binson_parser_field_with_length/md=1", tier="thorough",
        note="lookup loop closed by its loop invariant (no decreases clause yet: termination of this loop is not claimed)")
     e1("binson_parser_field", LKP, defs=["VC_STUB_STRLEN"], replace=["binson_parser_field_with_length", "vc_strlen"])
     e1("binson_parser_field_ensure", LKP, defs=["VC_STUB_STRLEN"], replace=["binson_parser_field_ensure_with_length", "vc_strlen"])
@@ -99,13 +99,13 @@ def build():
 
     # ---- E2: _advance_parsing, loop closed by the in-source loop contract, max_depth enumerated
     ADV_PROPS = {"C01": "*", "C06": "*", "C07": "*", "C08": "*", "C09": "*", "C12": "*", "C16": "*", "C18": "*", "C02": "*"}
-    NPART = 16
+    NPART = 8
     for md, tmo, tier in ((1, 3600, "quick"), (2, 7200, "thorough"), (3, 14400, "thorough")):
         for i in range(NPART):
             J.append(Job("E2/_advance_parsing/md=%d/part=%02d" % (md, i), "E2", "contracts/h_adv.c", "h_adv", ADV_PROPS,
                          enforce="_advance_parsing", defs=["VC_MD=%d" % md],
                          cbmc_args=["--unwindset", "h_adv.0:%d" % (md + 1), "--unwinding-assertions", "--slice-formula"],
-                         timeout=tmo, mem_gb=10, tier=tier, part=(i, NPART),
+                         timeout=tmo, mem_gb=7, tier=tier, part=(i, NPART),
                          note="legacy --apply-loop-contracts; function contract asserted by harness; max_depth=%d constant, all else symbolic; obligations split in %d shares run in parallel" % (md, NPART)))
 
     # ---- E3 bounded stand-ins (labelled bounded everywhere; never counted as proof)
